@@ -202,6 +202,10 @@ func init() {
 			for _, other := range []int{0, 7, 10, 13} {
 				emit([]string{"w:a.mtail:17", fmt.Sprintf("w:b.mtail:%d", other), fmt.Sprintf("w:c.mtail:%d", other), "load", "l:x", "l:y", "load", "l:x", "load", "l:y", "load"})
 			}
+			// one exported name under two store names in two programs (`lat-ms` and `lat_ms`): both are
+			// exported, neither disturbs the other
+			emit([]string{"w:a.mtail:21", "w:b.mtail:22", "load", "l:x", "l:y", "load", "l:x", "load"})
+			emit([]string{"w:a.mtail:22", "load", "l:x", "w:b.mtail:21", "w:c.mtail:0", "load", "l:y", "load"})
 			n := 120
 			if g.thorough() {
 				n = 2500
